@@ -79,6 +79,19 @@ class Column(object):
 
     reversible = False
 
+    def __eq__(self, other):
+        # Column types are configuration objects (like formats): two copies of
+        # the same schema, e.g. unpickled from two TOC files, must compare
+        # equal (FieldType.__eq__ compares the column types)
+        return (other.__class__ is self.__class__
+                and self.__dict__ == other.__dict__)
+
+    def __ne__(self, other):
+        return not self.__eq__(other)
+
+    def __hash__(self):
+        return hash(self.__class__)
+
     def writer(self, dbfile):
         """Returns a :class:`ColumnWriter` object you can use to use to create
         a column of this type on disk.
